@@ -81,6 +81,7 @@ type Exec struct {
 	unwound    map[string]int
 	maxUnwind  int
 	feasCache  map[int]string
+	tightCache map[[2]int]int
 
 	primaryMs       int
 	vcTimeout       time.Duration
